@@ -112,6 +112,22 @@ RecordIter(H) == [o \in OidsOf(H) |->
                     IN IF l.k # "rev" THEN KeyErr
                        ELSE [k |-> "rev", d |-> l.d, serial |-> l.serial, next |-> IF N = {} THEN -1 ELSE MinS(N)]]
 
+\* iterator(start) / iterator(None, stop): the tids listed (both bounds inclusive)
+TidSeq(H) == [i \in 1..Len(H) |-> H[i].tid]
+IterFrom(H, s) == SelectSeq(TidSeq(H), LAMBDA t : t >= s)
+IterTo(H, e)   == SelectSeq(TidSeq(H), LAMBDA t : t <= e)
+\* undoLog(first, last, filter): entries first .. last-1 (0-based, newest first) of the undoable transactions that pass
+\* the filter; a negative last means "at most -last entries".  The scan stops at the first packed transaction whether
+\* or not it passes the filter.  m = "" : no filter; otherwise only transactions whose meta is m.
+RECURSIVE UndoLogFiltered(_, _, _)
+UndoLogFiltered(H, i, m) == IF i = 0 \/ H[i].status = "p" THEN <<>>
+                            ELSE (IF m = "" \/ H[i].meta = m THEN <<H[i].tid>> ELSE <<>>) \o UndoLogFiltered(H, i - 1, m)
+UndoWindows == {<<0, 1>>, <<1, 2>>, <<1, 3>>, <<0, -2>>, <<1, -1>>, <<2, -20>>}
+UndoLogWin(H, f, l, m) == LET U == UndoLogFiltered(H, Len(H), m)
+                              last == IF l < 0 THEN f - l ELSE l
+                              hi == IF last < Len(U) THEN last ELSE Len(U)
+                          IN IF f + 1 > hi THEN <<>> ELSE SubSeq(U, f + 1, hi)
+
 ObsTable(H, Oids) ==
   [lb   |-> [o \in Oids |-> [t \in Bounds(H) |-> LoadBefore(H, o, t)]],
    cur  |-> [o \in Oids |-> Load(H, o)],
@@ -119,6 +135,9 @@ ObsTable(H, Oids) ==
    revs |-> [o \in Oids |-> HistoryOf(H, o)],
    iter |-> IterView(H),
    ulog |-> UndoLog(H),
+   ulw  |-> [w \in UndoWindows |-> [m \in {"", "m0"} |-> UndoLogWin(H, w[1], w[2], m)]],
+   itf  |-> [t \in Bounds(H) |-> IterFrom(H, t)],
+   itt  |-> [t \in Bounds(H) |-> IterTo(H, t)],
    linv |-> [n \in {1, 2, 99} |-> LastInv(H, n)],
    riter |-> RecordIter(H),
    last |-> LastTid(H),
